@@ -62,6 +62,10 @@ fn main() {
                 }
             }
             engine::install_fatal_handlers(std::path::Path::new(&format!("{root}/replays/{}/.inflight.bin", prop.id)));
+            if matches!(mode, Mode::Run) {
+                let limit = std::env::var("ZV_STALL_S").ok().and_then(|s| s.parse().ok()).unwrap_or(if args[3] == "quick" { 240 } else { 3600 });
+                engine::start_stall_monitor(limit, std::path::PathBuf::from(format!("{root}/replays/{}/.stalled", prop.id)));
+            }
             let only = !matches!(mode, Mode::Run);
             let mut ctx = Ctx::new(prop.id, tier, seed(), prop.level, mode);
             // known-finding replays first (only in a normal run)
@@ -199,8 +203,29 @@ fn supervise(prop: &str, tier: &str) -> i32 {
     let root = std::env::var("ZV_ROOT").unwrap_or_else(|_| "/verif".into());
     let listed = engine::load_known(&std::path::PathBuf::from(&root)).iter().any(|k| k.key == "bzip2-c-decoder-uninitialised-read");
     let mut skip: Vec<u64> = Vec::new();
+    let mut stalled: Vec<u64> = Vec::new();
     loop {
+        let stall_file = format!("{root}/replays/{prop}/.stalled");
+        let _ = std::fs::remove_file(&stall_file);
         let (code, bz2_case) = supervise_once(prop, tier, &skip);
+        if code == 3 {
+            // the worker's stall monitor gave up on test executions that did not return: restart without them
+            let tags: Vec<u64> = std::fs::read_to_string(&stall_file).unwrap_or_default().split(',').filter_map(|x| x.trim().parse().ok()).collect();
+            let _ = std::fs::remove_file(&stall_file);
+            let fresh: Vec<u64> = tags.into_iter().filter(|t| !skip.contains(t)).collect();
+            if fresh.is_empty() || stalled.len() >= 48 {
+                eprintln!("[{prop}] worker stalled repeatedly; inconclusive");
+                return 2;
+            }
+            eprintln!("[{prop}] {} case(s) did not return (presumed hung) and are left out; restarting the worker", fresh.len());
+            stalled.extend(fresh.iter().copied());
+            skip.extend(fresh);
+            continue;
+        }
+        if !stalled.is_empty() && code == 0 {
+            eprintln!("[{prop}] no violation in the cases that returned, but {} case(s) never returned (hang or extreme slowness): inconclusive, not a violation", stalled.len());
+            return 2;
+        }
         match bz2_case {
             Some(tag) if listed && skip.len() < 50 && !skip.contains(&tag) => {
                 eprintln!("[{prop}] worker was killed inside libbz2 while running case {}:{} - that is the listed known finding C05/bzip2-c-decoder-uninitialised-read; restarting without that case ({} left out so far)", tag >> 48, (tag & 0xffff_ffff_ffff) - 1, skip.len() + 1);
